@@ -123,7 +123,12 @@ func (lw *l2world) newChain() *chain.Manager {
 
 // mineOn mines one block on cm (v1 network: heights stay far below the v2 allow height). The timestamp is never
 // earlier than the parent's (fork blocks carry shifted timestamps) and `shift` seconds later than now.
-func mineOn(cm *chain.Manager, shift int) (types.Block, bool) {
+func mineOn(cm *chain.Manager, shift int) (types.Block, bool) { return mineTagged(cm, shift, "") }
+
+// mineTagged: a non-empty tag is carried as arbitrary data of an otherwise empty transaction, so that a fork
+// block can never be the very block it competes with (same parent, same payout and — once timestamps run ahead
+// of the clock — the same parent+1s timestamp).
+func mineTagged(cm *chain.Manager, shift int, tag string) (types.Block, bool) {
 	cs := cm.TipState()
 	ts := time.Now().Add(time.Duration(shift) * time.Second).Truncate(time.Second)
 	if prev := cs.PrevTimestamps[0]; !ts.After(prev) {
@@ -131,6 +136,9 @@ func mineOn(cm *chain.Manager, shift int) (types.Block, bool) {
 	}
 	addr := types.StandardUnlockHash(hostKey.PublicKey())
 	b := types.Block{ParentID: cs.Index.ID, Timestamp: ts, MinerPayouts: []types.SiacoinOutput{{Value: cs.BlockReward(), Address: addr}}}
+	if tag != "" {
+		b.Transactions = append(b.Transactions, types.Transaction{ArbitraryData: [][]byte{[]byte(tag)}})
+	}
 	var weight uint64
 	for _, txn := range cm.PoolTransactions() {
 		if weight += cs.TransactionWeight(txn); weight > cs.MaxBlockWeight() {
@@ -175,7 +183,7 @@ func (lw *l2world) reorg(depth, extra int) bool {
 	for i := 0; i < depth+extra; i++ {
 		// a fork block mined in the same second as the block it competes with would be the very same block:
 		// the fork's timestamps are shifted by its generation number
-		b, ok := mineOn(alt, lw.forkGen*7+i)
+		b, ok := mineTagged(alt, lw.forkGen*7+i, fmt.Sprintf("vh-fork-%d-%d", lw.forkGen, i))
 		if !ok {
 			return false
 		}
